@@ -22,7 +22,7 @@ const negativeZone = "-"
 
 func (t *Time) ReadFrom(r io.Reader) (n int64, err error) {
 	data := make([]byte, 7)
-	if _, err = r.Read(data); err != nil {
+	if err = readFull(r, data); err != nil {
 		return
 	}
 	blocks := semioctet.DecodeSemi(data)
@@ -80,7 +80,7 @@ type Duration struct{ time.Duration }
 
 func (d *Duration) ReadFrom(r io.Reader) (n int64, err error) {
 	data := make([]byte, 1)
-	if _, err = r.Read(data); err != nil {
+	if err = readFull(r, data); err != nil {
 		return
 	}
 	switch n := time.Duration(data[0]); {
@@ -145,7 +145,7 @@ func (d *EnhancedDuration) ReadFrom(r io.Reader) (n int64, err error) {
 		length--
 	case 0b011: // relative hh:mm:ss
 		data := make([]byte, 3)
-		_, err = buf.Read(data)
+		err = readFull(buf, data)
 		semi := semioctet.DecodeSemi(data)
 		if len(semi) < 3 {
 			err = ErrInvalidSemiOctets
